@@ -8,6 +8,7 @@ def step (line : String) : String :=
   | "c08" :: a => Drv.C08.op a
   | "c08t" :: a => Drv.C08.opT a
   | "c08u" :: a => Drv.C08.opU a
+  | "c08x" :: a => Drv.C08.opX a
   | "c09" :: a => Drv.C09.op a
   | "c19d" :: a => Drv.C19.opD a
   | "c19dup" :: a => Drv.C19.opDup a
@@ -27,6 +28,7 @@ def step (line : String) : String :=
   | "c11n" :: a => Drv.C11.opNorm a
   | "c11i" :: a => Drv.C11.opInsert a
   | "c11w" :: a => Drv.C11.opWall a
+  | "c11x" :: a => Drv.C11.opExtend a
   | "c11p" :: a => Drv.C11.opMask a
   | "c12m" :: a => Drv.C12.opMask a
   | "c12v" :: a => Drv.C12.opVerdict a
